@@ -32,9 +32,27 @@ func uvarintFromBuf(r *bufio.Reader) (uint64, error) {
 	if err != nil && err != io.EOF {
 		return 0, err
 	}
+	if n := uvarintSize(p); n == 0 || n > len(p) {
+		return 0, io.ErrUnexpectedEOF
+	}
 	x, n := uvarintFromBytes(p)
 	_, err = r.Discard(n)
 	return x, err
+}
+
+// uvarintSize tells how many bytes the uvarint starting at p occupies,
+// judging by its first byte; 0 if p is empty.
+func uvarintSize(p []byte) int {
+	switch {
+	case len(p) == 0:
+		return 0
+	case p[0] <= 0xF0:
+		return 1
+	case p[0] <= 0xF8:
+		return 2
+	default:
+		return int(p[0]) - 0xF9 + 3
+	}
 }
 
 func varintToBytes(p []byte, x int64) int {
@@ -136,17 +154,26 @@ func valueFromBuf(r *bufio.Reader) (value, error) {
 	switch c := typecode(b[0]); c {
 	case typeINT:
 		p, _ := r.Peek(9)
+		if n := uvarintSize(p); n == 0 || n > len(p) {
+			return nil, io.ErrUnexpectedEOF
+		}
 		x, i := varintFromBytes(p)
 		_, err = r.Discard(i)
 		return int(x), err
 
 	case typeFLOAT:
 		p, _ := r.Peek(8)
+		if len(p) < 8 {
+			return nil, io.ErrUnexpectedEOF
+		}
 		_, err = r.Discard(len(p))
 		return math.Float64frombits(stdbinary.BigEndian.Uint64(p)), err
 
 	case typeSTR:
 		p, _ := r.Peek(9)
+		if n := uvarintSize(p); n == 0 || n > len(p) {
+			return nil, io.ErrUnexpectedEOF
+		}
 		k, i := uvarintFromBytes(p)
 		r.Discard(i)
 		p, _ = r.Peek(int(k))
